@@ -295,17 +295,37 @@ func (c *Channel) JoinPresence(ctx context.Context, p stanza.Presence, opt ...Op
 		}
 	}(errChan)
 
+	var joinErr error
 	verifhook.Yield("muc.join.select")
 	select {
-	case err := <-errChan:
-		return err
+	case joinErr = <-errChan:
 	case roomAddr := <-joinChan:
 		c.addr = roomAddr
+		return nil
 	case <-ctx.Done():
-		return ctx.Err()
+		joinErr = ctx.Err()
 	}
 
-	return nil
+	// Release the presence handler if it is offering us the self-presence at this
+	// very moment, then forget the attempt.
+	cancel()
+	c.abandonJoin()
+	return joinErr
+}
+
+// abandonJoin removes what a join that did not complete leaves behind: its
+// hand-off request, if the presence handler has not picked it up, and the
+// registration of the channel unless it is still joined from an earlier call.
+func (c *Channel) abandonJoin() {
+	select {
+	case <-c.join:
+	default:
+	}
+	c.client.managedM.Lock()
+	if key := c.addr.String(); !c.joined && c.client.managed[key] == c {
+		delete(c.client.managed, key)
+	}
+	c.client.managedM.Unlock()
 }
 
 // Subject attempts to change the room subject.
